@@ -54,6 +54,13 @@ class Lib:
             out.append("\tG%d = G%d + 1" % (k, k))
         out.append("\treturn y")
         out.append("}")
+        # the same two names in every file: equal names in different files must not interfere
+        out.append("func same() int {")
+        out.append("\treturn %d" % (7 * k))
+        out.append("}")
+        out.append("func Same() int {")
+        out.append("\treturn same() + %d" % k)
+        out.append("}")
         out.append("func unused%d() {" % k)
         out.append('\tprint("unused %d")' % k)
         out.append("}")
@@ -168,6 +175,10 @@ def gen_case(rng, idx):
             lines.append("print(%s.F%d(%d))" % (a, k, x))
             w.out.append(str(w.F(k, x)))
             w2.out.append(str(w2.F(k, x)))
+    for a, k in zip(aliases, main_imports):
+        lines.append("print(%s.Same())" % a)
+        w.out.append(str(8 * k))
+        w2.out.append(str(8 * k))
     if same:
         lines.append("print(F%d(2), g%d)" % (k0, k0))
         w.out.append("200 77")
